@@ -76,6 +76,9 @@ def draw_knobs(rng: Rng, profile: str):
         hash_salt=kr.randrange(1 << 30),
         dup_names=kr.chance(0.2),
     )
+    # a client that stays connected but stops reading (slow or stalled peer): its socket buffers fill up
+    knobs["stalled_reader"] = bool(p["client_faults"]) and kr.chance(0.3)
+    knobs["sock_capacity"] = kr.pick([512, 4096, 65536])
     return knobs
 
 
@@ -192,6 +195,13 @@ class PoolScenario:
                 cands.append((0.3, {"op": "reconnect", "conn": cid}))
                 if n_sub:
                     cands.append((0.4, {"op": "submit_abort", "conn": cid, "k": None}))
+                if kn.get("stalled_reader"):
+                    c = w.conns.get(cid)
+                    if c is not None and not c.reading:
+                        cands.append((0.3, {"op": "unstall", "conn": cid}))
+                        cands.append((0.6, {"op": "stall", "conn": cid, "n": r.pick([5, 30])}))
+                    else:
+                        cands.append((0.8, {"op": "stall", "conn": cid, "n": r.pick([5, 30, 200])}))
             cands.append((1.0, {"op": "query", "conn": good}))
             if self.next_k < kn["n_tasks"] + 3 and r.chance(0.5):
                 cands.append((0.5, {"op": "submit", "conn": r.pick(["c1", "c2"]), "k": 100 + self.next_k,
@@ -273,6 +283,19 @@ class PoolScenario:
                 w.connect(op["conn"], self.knobs.get("reset_on_drain", True))
         elif kind == "query":
             self._query(w, op["conn"])
+        elif kind == "stall":
+            # the client keeps asking but no longer reads the answers
+            c = w.conn(op["conn"])
+            if c.usable:
+                c.tainted = True
+                c.reading = False
+                for _ in range(op["n"]):
+                    w.request(op["conn"], "get_task_states")
+                w.fault("stalled_reader")
+        elif kind == "unstall":
+            c = w.conns.get(op["conn"])
+            if c is not None and not c.reading:
+                c.resume_reading()
         else:
             raise HarnessError(f"unknown op {kind}")
         if kind not in ("run", "advance"):
@@ -309,6 +332,7 @@ class PoolScenario:
         w = PoolWorld(self.trace, kn["cores"], self.props, hash_salt=kn.get("hash_salt", 0),
                       dup_names=kn.get("dup_names", False))
         self.world = w
+        w.sock_capacity = kn.get("sock_capacity", 1 << 22)
         try:
             with w:
                 w.connect("c0", True)
